@@ -175,6 +175,7 @@ class HDFOutput(Output):
                 data = self.all_array_data[ptype]
                 self._set_constants(pdata, ptype_grp)
                 self._set_properties(pdata, arrays_grp, data)
+                self._set_output_arrays(pdata, ptype_grp)
             self._set_solver_data(solver_grp)
 
     def _load(self, fname):
@@ -218,6 +219,11 @@ class HDFOutput(Output):
                     array.add_property(
                         prop_name, type=type_, default=default, stride=stride
                     )
+            if 'output_property_arrays' in prop_array.attrs:
+                output_array = [
+                    _to_str(x)
+                    for x in prop_array.attrs['output_property_arrays']
+                ]
             array.set_output_arrays(output_array)
             particles[str(name)] = array
         return particles
@@ -263,6 +269,14 @@ class HDFOutput(Output):
                 if value is None:
                     value = 'None'
                 prop.attrs[attname] = value
+
+    def _set_output_arrays(self, pdata, ptype_grp):
+        # The stored flags only say what was written (everything for
+        # detailed output), so save the actual list of output arrays.
+        names = [str(x) for x in pdata.get('output_property_arrays', [])]
+        ptype_grp.attrs['output_property_arrays'] = numpy.array(
+            names, dtype='S'
+        )
 
     def _set_solver_data(self, grp):
         for name, data in self.solver_data.items():
